@@ -60,7 +60,7 @@ def main():
         common.build_lib("plain")
     det = os.path.join(d, "detection.json")
     old = json.load(open(det)) if os.path.exists(det) else {}
-    old.update({"tier_" + tier: res})
+    old.setdefault("tier_" + tier, {}).update(res)
     json.dump(old, open(det, "w"), indent=1)
     return 0
 
